@@ -38,6 +38,8 @@ func isSubresourceCreate(in ssa.Instruction, sub string) bool {
 }
 
 func runC11(c *Ctx) {
+	borrow(c, "O6", "C17", "O5", "label patch is applied through", "rollback removes the labels it sees on the reconciler's pod object")
+
 	p, fx := c.P, c.Fx
 	bind := c.Anchor("O1", pkgBinding, "Binder", "Bind")
 	rollback := c.Anchor("O3", pkgBinding, "Binder", "Rollback")
